@@ -49,6 +49,10 @@ pub fn jbytes(b: &[u8]) -> Value {
 }
 
 pub fn vbytes(v: &Value) -> Vec<u8> {
+    // {"z": n} stands for n zero bytes (compact form used by some TLC generators)
+    if let Some(n) = v.get("z").and_then(|n| n.as_u64()) {
+        return vec![0; n as usize];
+    }
     v.as_array()
         .map(|a| a.iter().map(|x| x.as_u64().unwrap() as u8).collect())
         .unwrap_or_default()
